@@ -32,6 +32,25 @@ func genC17(r *rt.Rand, tier string, idx int) *world.Scenario {
 	case 4:
 		sc.Engine, sc.Class = "tikv", "ttl-less-tikv"
 	}
+	if (idx%5 == 3 || idx%5 == 4) && (idx/5)%2 == 1 {
+		// a client renews Events while the expiry pass of a compaction is removing them
+		sc.Class += "+racing-renewal"
+		sc.Extra = map[string]int64{"skip_verify": 1}
+		e := []string{prefix + "/events/ns/e1", prefix + "/events/ns/e2"}
+		c0 := world.Client{Ops: []world.Op{{K: "watch", Key: prefix + "/", W: 1, Consume: "eager"}, {K: "create", Key: e[0], Val: "a"}, {K: "create", Key: e[1], Val: "b"},
+			{K: "waitcommitted"}, {K: "compact", Rev: world.Rev{M: "zero"}}, {K: "sleep", Ms: 3_700_000}, {K: "compact", Rev: world.Rev{M: "zero"}}, {K: "sleep", Ms: 1000}}}
+		c1 := world.Client{Ops: []world.Op{{K: "sleep", Ms: int64(3_699_000 + r.Intn(1200))}}}
+		for i := 0; i < 1+r.Intn(3); i++ {
+			k := e[r.Intn(2)]
+			c1.Ops = append(c1.Ops, world.Op{K: "get", Key: k}, world.Op{K: "update", Key: k, Val: fmt.Sprintf("renew%d", i), Rev: world.Rev{M: "known"}})
+		}
+		for _, k := range c17Keys {
+			c0.Ops = append(c0.Ops, world.Op{K: "get", Key: k})
+		}
+		sc.Clients = []world.Client{c0, c1}
+		sc.MaxSteps = 80000
+		return sc
+	}
 	pauses := []int64{10_000, 600_000, 1_790_000, 1_810_000, 3_590_000, 3_610_000, 4_000_000, 100_000}
 	var cl world.Client
 	cl.Ops = append(cl.Ops, world.Op{K: "watch", Key: prefix + "/", W: 1, Consume: "eager"})
